@@ -87,15 +87,15 @@ def run(ctx):
     if quick:
         single = [d for d in share if all(len(p) == 1 for p in d["progs"])]      # every pair of accessors, always
         rest = [d for d in share if d not in single]
-        share = single + rnd.sample(rest, 420)
+        share = single + rnd.sample(rest, 1200)
     rnd.shuffle(share)
     hp, sp = os.path.join(wd, "hist.scen"), os.path.join(wd, "share.scen")
     pc.write_scen(hp, kinds["hist"])
     pc.write_scen(sp, share)
     G = 8
     plan = {
-        "hist": [binp, "-phase", "hist", "-scenarios", hp, "-seed", str(ctx.seed), "-k", str(K), "-pools", "10" if quick else "150"],
-        "conc": [binr, "-phase", "conc", "-scenarios", hp, "-seed", str(ctx.seed + 1000), "-k", str(K), "-g", str(G), "-pools", "3" if quick else "30"],
+        "hist": [binp, "-phase", "hist", "-scenarios", hp, "-seed", str(ctx.seed), "-k", str(K), "-pools", "30" if quick else "150"],
+        "conc": [binr, "-phase", "conc", "-scenarios", hp, "-seed", str(ctx.seed + 1000), "-k", str(K), "-g", str(G), "-pools", "6" if quick else "30"],
         "share": [binr, "-phase", "share", "-scenarios", sp, "-seed", str(ctx.seed + 2000), "-g", str(G), "-rounds", "2" if quick else "4"],
     }
 
@@ -147,7 +147,7 @@ def run(ctx):
            "rule": "a Call is non-trivial when its (input, first layer, option set) decoded to >= 2 layers (counted once per phase); "
                    "a sharing scenario is non-trivial per distinct pair of accessor programs run on a packet of >= 2 layers. "
                    "Inputs: harvested fixtures, structural mutations, inner-layer starts and near-duplicates in seeded pools of K; "
-                   "histories and accessor-program pairs are the exhaustive TLC export (quick: all single-accessor pairs + 420 seeded longer ones)",
+                   "histories and accessor-program pairs are the exhaustive TLC export (quick: all single-accessor pairs + 1200 seeded longer ones)",
            "generator_model": {"K": K, "MaxProg": 2, "tlc_states": g.distinct, "histories": len(kinds["hist"]),
                                "accessor_program_pairs": len(kinds["share"]), "pairs_replayed": len(share)},
            "phases": stats, "trace_events_validated": sum(v["lines"] for v in vals.values()),
